@@ -15,7 +15,7 @@ def na3(path): return (list(path) + [0, 0, 0])[:3]
 class Session:
     """builds one script block"""
     def __init__(self, sid, cfg, cfgdir, paths=None, present=None, full=True, extra_nodes=(), flush_ms=0, rounds=12):
-        self.sid = sid; self.cfg = cfg; self.full = full
+        self.sid = sid; self.cfg = cfg; self.full = full; self.nb = 0; self.stopped = False
         self.paths = paths if paths is not None else cfgmod.paths(cfg)
         if present is not None: self.paths = {b: p for b, p in self.paths.items() if b in present}
         self.s = Script(sid); self.ev = []          # ev: list of dict(tmpl, act, drain, get) line indexes
@@ -42,12 +42,19 @@ class Session:
         self.start_get = len(s.lines); s.add("getall")
 
     # ---- logical events
-    def _add(self, line, tmpl, drain=False):
+    def _add(self, line, tmpl, drain=False, get=True):
         e = {"tmpl": tmpl, "act": len(self.s.lines), "drain": None, "get": None}
         self.s.add(line)
         if drain: e["drain"] = len(self.s.lines); self.s.add("drain")
-        if self.full: e["get"] = len(self.s.lines); self.s.add("getall")
+        if self.full and get and not self.stopped: e["get"] = len(self.s.lines); self.s.add("getall")
         self.ev.append(e)
+    # C17: keep query results, look at them again later, free them once
+    def hold(self):
+        k = self.nb; self.nb += 1; self._add("bundle take", {"e": "hold", "k": k, "_b": 1}, get=False); return k
+    def held(self, k): self._add("bundle print %d" % k, {"e": "held", "k": k, "_b": 1}, get=False)
+    def release(self, k): self.s.add("bundle free %d" % k)
+    def stop(self):
+        self._add("stop", {"e": "stop"}, get=False); self.stopped = True
     def up(self, n, ty, d, seq=0, sv=0, drain=True):
         pk = wire.packet([wire.msg(n, seq, ty, d)])
         self._add("feed " + wire.hexs(pk), {"e": "up", "n": list(n), "ty": ty, "d": list(d), "sv": sv, "sq": seq, "dr": 1 if drain else 0}, drain=drain)
@@ -65,7 +72,8 @@ class Session:
     def tick(self, d): self._add("tick %d" % d, {"e": "tick", "d": d})
     def flush(self): self._add("flush", {"e": "flush"})
     def end(self):
-        self.s.add("stop"); return self
+        if not self.stopped: self.s.add("stop")
+        return self
 
 def _t(x): return "~" if x is None else ("%e" if x == "" else x)
 
@@ -88,6 +96,14 @@ def keyed(st):
     for r in st.get("boards", []):
         o["boards"][r["id"]] = {"conn": r["conn"], "addr": path_of(r["addr"]) if r["addr"] else [], "uid": r["uid"], "kc": r["kc"]}
     o["ontrack"] = st.get("ontrack", [])
+    return o
+
+def keyed_bundle(b):
+    o = {"snap": keyed(b["snap"]), "sg": {}, "unk": b["unk"], "boards": b["boards"], "trains": b["trains"]}
+    for k, lst in b["sg"].items():
+        o["sg"][k] = {}
+        for r in lst:
+            r = dict(r); i = r.pop("id"); o["sg"][k][i] = r
     return o
 
 def wire_of(outs):
@@ -125,6 +141,10 @@ def to_events(sess, rr):
         if ev.pop("_q", None):
             ev["qm"] = [wire.unhex(x) for x in a[0].get("msg", [])]; ev["qe"] = [wire.unhex(x) for x in a[0].get("err", [])]
             ev["qi"] = [wire.unhex(x) for x in a[0].get("int", [])]
+        if ev.pop("_b", None):
+            res = a[0].get("res")
+            if not res or res.get("b") is None: probs.append("bundle missing at line %d" % e["act"]); break
+            ev["k"] = res["k"]; ev["b"] = keyed_bundle(res["b"])
         if ev.pop("_m", None): ev["m"] = wire.unhex(a[0]["m"]) if a[0].get("m") else []
         if ev.get("e") == "up" and e["drain"] is None: ev["qm"] = []; ev["qe"] = []; ev["qi"] = []
         outs = list(a)
